@@ -12,7 +12,9 @@ extract a byte class, an escape table or an option dispatch from the code,
 independently of whether the source spells it as `match`, `||`, `contains` on a
 static or a lookup table.
 """
+import os
 import re
+import sys
 from . import facts as F
 
 
@@ -294,6 +296,9 @@ class Path:
         return "<Path end=%s ret=%r ev=%d>" % (self.end, self.ret, len(self.events))
 
 
+_DEBUG_FORKS = bool(os.environ.get("VERIF_SIM_DEBUG"))
+
+
 class Limit(Exception):
     pass
 
@@ -497,9 +502,20 @@ class Sim:
                     nv = v.fields.get(e["f"], UNK)
             elif "d" in e:
                 nv = v
+            elif "ci" in e and not e.get("fe"):
+                if isinstance(v, Tup) and e["ci"] < len(v.fields):
+                    nv = v.fields[e["ci"]]
+            elif "i" in e and isinstance(env[e["i"]], int):
+                if isinstance(v, Tup) and env[e["i"]] < len(v.fields):
+                    nv = v.fields[env[e["i"]]]
             chain.append((v, e))
             v = nv
         last = proj[-1]
+        if isinstance(last, dict) and "i" in last and isinstance(env[last["i"]], int):
+            last = {"ci": env[last["i"]]}
+        if isinstance(last, dict) and "ci" in last and not last.get("fe") and isinstance(v, Tup) and last["ci"] < len(v.fields):
+            v.fields[last["ci"]] = val
+            return
         if isinstance(v, Ref) and last == "*":
             self.write_place(v.env, {"l": v.local, "p": list(v.proj)}, val, path, fn, bi)
             return
@@ -570,6 +586,10 @@ class Sim:
             pl = rv["pl"]
             base = env[pl["l"]]
             proj = pl["p"]
+            # `&a[i]` with a known index refers to that element
+            if any(isinstance(e, dict) and "i" in e and isinstance(env[e["i"]], int) for e in proj):
+                proj = [{"ci": env[e["i"]]} if isinstance(e, dict) and "i" in e and isinstance(env[e["i"]], int) else e
+                        for e in proj]
             # reborrow `&*x` / `&(*x).f`
             if proj and proj[0] == "*":
                 if isinstance(base, Ref):
@@ -804,6 +824,8 @@ class Sim:
                     # unknown: fork
                     tgts = list(dict.fromkeys([x[1] for x in t["targets"]] + [t["otherwise"]]))
                     path.events.append(("fork", fn.path, bb, len(tgts)))
+                    if _DEBUG_FORKS:
+                        print("sim: fork at %s bb%d on %r (%s)" % (fn.path, bb, v, t["op"]), file=sys.stderr)
                     self.npaths += len(tgts) - 1
                     if self.npaths > self.max_paths:
                         raise Limit("path limit in %s" % fn.path)
